@@ -130,6 +130,11 @@ def directed_pool():
          '^*', '$*', '^^', '$$', 'a^', '$a', '.*.*.*.*x', '(a*)*', '(a*)+', '(a|)*', '(()*)*', '(a{0,2}){0,2}', '((a{2}){2}){2}', '(((a{8}){8}){8})', 'a{100}{100}',
          '\xc3', 'a\xc3', '[\xc3]', '[\xe2\x82]', '\xe2\x82', '.\xf0\x9f', '[a-\xc3]', '\xff', '[\xff-\xfe]', '\x80', '[^\x80]']
     P += ['\xc1\xa1', '\xc0\xaf', '\xe0\x81\xa1', '\xf0\x80\x81\xa1', 'b\xc1\xa1', '\xc1\xa1+', '[\xc1\xa1]', '\xe0\x81\xa1\xc3\xa9', '\xf8\x88\x80\x80\x80']     # overlong / invalid encodings of 'a' etc.: equal code point, other length
+    # a multi-byte character in front of a repetition operator: the operator binds to the whole character (the lines hold its
+    # siblings: same lead bytes, other last byte)
+    for ch in ['\xc3\xa9', '\xe2\x82\xac', '\xf0\x9f\x98\x80']:
+        for q in ['*', '+', '?', '{0,2}', '{2}', '{1,}']:
+            P += [ch + q, 'a' + ch + q, ch + q + 'a', '(' + ch + ')' + q, ch + ch + q, '[' + ch + ']' + q, '^' + ch + q + '$']
     P.append('(' * 63 + 'a' + ')' * 63)
     P.append('(' * 64 + 'a' + ')' * 64)
     P.append('(' * 65 + 'a' + ')' * 65)
@@ -155,26 +160,32 @@ def directed_pool():
 def run_binary(args):
     vi, pat, form = args
     # pattern typed into the real binary (only valid UTF-8, NUL/newline free, as the editor's input is)
-    if form == 's':
-        script = b's/' + pat.replace(b'/', b'\\/') + b'/x/\n'
-        r, d = common.run_ex(vi, script, files={'f1': 'aa1,9 ab(a)\nééa€\n'.encode()}, timeout=60)
+    if form in ('s', 's-noic'):
+        script = (b'se noic\n' if form == 's-noic' else b'') + b'%s/' + pat.replace(b'/', b'\\/') + b'/x/g\nw! out\n'
+        r, d = common.run_ex(vi, script, files={'f1': 'aa1,9 ab(a)\nééa€\néèa€₭ 😀😁\n'.encode()}, timeout=60)
     elif form == 'g':
         script = b'g/' + pat.replace(b'/', b'\\/') + b'/p\n'
-        r, d = common.run_ex(vi, script, files={'f1': 'aa1,9 ab(a)\nééa€\n'.encode()}, timeout=60)
+        r, d = common.run_ex(vi, script, files={'f1': 'aa1,9 ab(a)\nééa€\néèa€₭ 😀😁\n'.encode()}, timeout=60)
     elif form in ('addr', 'addr-open', 'raddr-open', 'g-open', 's-open', 'nested', 'two'):
         # the pattern as an ex address, with and without its closing delimiter (the command line then ends inside the pattern), in
         # the unfinished forms of :g and :s, in an address inside a global's command list, and twice in one range
         q = pat.replace(b'/', b'\\/')
         script = {'addr': b'/' + q + b'/p\n', 'addr-open': b'/' + q + b'\n', 'raddr-open': b'?' + pat.replace(b'?', b'\\?') + b'\n', 'g-open': b'g/' + q + b'\n', 's-open': b's/' + q + b'\n',
                   'nested': b'g/a/ /' + q + b'\n', 'two': b'/' + q + b'/;/' + q + b'\n'}[form]
-        r, d = common.run_ex(vi, script, files={'f1': 'aa1,9 ab(a)\nééa€\n'.encode()}, timeout=60)
+        r, d = common.run_ex(vi, script, files={'f1': 'aa1,9 ab(a)\nééa€\néèa€₭ 😀😁\n'.encode()}, timeout=60)
     elif form == 'vi-colon':
-        r, d = common.run_vi(vi, b':/' + pat.replace(b'/', b'\\/') + b'\n' + b':1;?' + pat.replace(b'?', b'\\?') + b'\n', files={'f1': 'aa1,9 ab(a)\nééa€\n'.encode()}, timeout=60)
+        r, d = common.run_vi(vi, b':/' + pat.replace(b'/', b'\\/') + b'\n' + b':1;?' + pat.replace(b'?', b'\\?') + b'\n', files={'f1': 'aa1,9 ab(a)\nééa€\néèa€₭ 😀😁\n'.encode()}, timeout=60)
     elif form == '?':
-        r, d = common.run_vi(vi, b'G?' + pat + b'\n', files={'f1': 'aa1,9 ab(a)\nééa€\n'.encode()}, timeout=60)
+        r, d = common.run_vi(vi, b'G?' + pat + b'\n', files={'f1': 'aa1,9 ab(a)\nééa€\néèa€₭ 😀😁\n'.encode()}, timeout=60)
     else:
-        r, d = common.run_vi(vi, b'/' + pat + b'\n', files={'f1': 'aa1,9 ab(a)\nééa€\n'.encode()}, timeout=60)
+        r, d = common.run_vi(vi, b'/' + pat + b'\n', files={'f1': 'aa1,9 ab(a)\nééa€\néèa€₭ 😀😁\n'.encode()}, timeout=60)
+    out = common.readf(d, 'out')
     common.rmcase(d)
+    if out is not None:
+        try:
+            out.decode('utf-8', 'strict')
+        except UnicodeDecodeError as e:
+            return ('binary:invalid-utf8:' + classify(pat), 'pattern %r typed as %s: the substituted text is not valid UTF-8: %r' % (pat, form, out[max(0, e.start - 8):e.end + 8]), {'pattern': pat, 'form': form})
     rep = common.san_report(r)
     if r.timed_out:
         return ('hang:binary:' + classify(pat), 'pattern %r typed as %s: editor did not reach quit' % (pat, form), {'pattern': pat, 'form': form})
@@ -248,7 +259,7 @@ def run(tier, V):
             continue
         if b'\n' in p or len(p) > 400:
             continue
-        for form in ('s', 'g', '/', '?', 'addr', 'addr-open', 'raddr-open', 'g-open', 's-open', 'nested', 'two', 'vi-colon'):
+        for form in ('s', 's-noic', 'g', '/', '?', 'addr', 'addr-open', 'raddr-open', 'g-open', 's-open', 'nested', 'two', 'vi-colon'):
             bjobs.append((vi, p, form))
     bres = pmap(run_binary, bjobs)
     for b in bres:
